@@ -10,6 +10,18 @@ fn arg(args: &[String], name: &str) -> Option<String> {
 
 fn main() {
     let args: Vec<String> = std::env::args().collect();
+    if args.len() == 2 && args[1] == "oracle-selftest" {
+        match rwsv::oracle::selftest::run() {
+            Ok(n) => {
+                eprintln!("oracle self-test: {} assertions hold", n);
+                return;
+            }
+            Err(e) => {
+                eprintln!("{}", e);
+                std::process::exit(1);
+            }
+        }
+    }
     if args.len() < 3 {
         eprintln!("usage: rwsv run <PROP> --tier T --shard i/n --out FILE | rwsv replay FILE");
         std::process::exit(2);
@@ -86,6 +98,15 @@ fn main() {
                 }
             }
         }
+        "oracle-selftest" => match rwsv::oracle::selftest::run() {
+            Ok(n) => {
+                eprintln!("oracle self-test: {} assertions hold", n);
+            }
+            Err(e) => {
+                eprintln!("{}", e);
+                std::process::exit(1);
+            }
+        },
         _ => {
             eprintln!("unknown command");
             std::process::exit(2);
